@@ -108,6 +108,12 @@ def build(case):
                 pass
             with rule_mode(q):
                 stmts(base['body'][a:b])
+    # case['later']: further sessions, ONE statement each, the rule evaluated in between
+    for k, c in case.get('later') or []:
+        for _ in q.evaluate():
+            pass
+        with rule_mode(q):
+            stmts([[k, c]])
     return q
 
 
